@@ -1,24 +1,30 @@
-use engeom::geom2::polyline2::ray_intersect_with_edge;
-use engeom::{Curve2, Point2, Vector2};
-use parry2d_f64::query::Ray;
-use parry2d_f64::shape::Polyline;
-fn main() {
-    let s = std::fs::read_to_string(std::env::args().nth(1).unwrap()).unwrap();
-    let v: serde_json::Value = serde_json::from_str(&s).unwrap();
-    let pts: Vec<Point2> = v["pts"].as_array().unwrap().iter().map(|p| Point2::new(p[0].as_f64().unwrap(), p[1].as_f64().unwrap())).collect();
-    let mut pts = pts;
-    pts.dedup();
-    if v["closed"].as_bool().unwrap() { let f = pts[0]; pts.push(f); }
-    let curve = Curve2::from_points(&pts, 1e-9, false).unwrap();
-    let poly = Polyline::new(curve.points().to_vec(), None);
-    let a: Vec<f64> = std::env::args().skip(2).map(|x| x.parse().unwrap()).collect();
-    let ray = Ray::new(Point2::new(a[0], a[1]), Vector2::new(a[2], a[3]));
-    let got = curve.ray_intersections(&ray);
-    let mut naive = vec![];
-    for i in 0..pts.len() - 1 {
-        if let Some(t) = ray_intersect_with_edge(&poly, &ray, i) { naive.push((t, i)); }
+use engeom::func1::Polynomial;
+use parry2d_f64::na::DMatrix;
+fn run<const K: usize>() {
+    let mut s: u64 = 12345;
+    let mut rnd = || { s ^= s << 13; s ^= s >> 7; s ^= s << 17; (s >> 11) as f64 / (1u64 << 53) as f64 };
+    let mut worst = vec![0.0f64; 12];
+    for _ in 0..20000 {
+        let centre = -1.5 + 3.0 * rnd();
+        let hw = 0.2 + 1.8 * rnd();
+        let n = K + 3 + (rnd() * 30.0) as usize;
+        let xs: Vec<f64> = (0..n).map(|_| centre + hw * (2.0 * rnd() - 1.0)).collect();
+        let mut c = [0.0; K];
+        for k in 0..K { c[k] = 20.0 * rnd() - 10.0; }
+        let p = Polynomial::<K>::new(c);
+        use engeom::func1::Func1;
+        let ys: Vec<f64> = xs.iter().map(|x| p.f(*x)).collect();
+        let mut m = DMatrix::<f64>::zeros(K, K);
+        for r in 0..K { for cc in 0..K { m[(r, cc)] = xs.iter().map(|x| x.powi((r + cc) as i32)).sum(); } }
+        let sv = m.svd(false, false).singular_values;
+        let cond = sv.max() / sv.min();
+        if !(cond < 1e12) { continue; }
+        let fit = Polynomial::<K>::least_squares(&xs, &ys, None);
+        let err = (0..K).map(|k| (fit.c[k] - c[k]).abs()).fold(0.0, f64::max);
+        let b = cond.log10().floor() as usize;
+        let ratio = err / (2.2e-16 * cond * 10.0);
+        if ratio > worst[b.min(11)] { worst[b.min(11)] = ratio; }
     }
-    naive.sort_by(|a, b| a.0.partial_cmp(&b.0).unwrap());
-    println!("bvh   {:?}", got);
-    println!("naive {:?}", naive);
+    println!("K={K} worst err/(eps*cond*10) by log10(cond) bucket: {:?}", worst.iter().map(|x| format!("{:.1e}", x)).collect::<Vec<_>>());
 }
+fn main() { run::<2>(); run::<3>(); run::<4>(); run::<5>(); run::<6>(); }
